@@ -845,3 +845,24 @@ def replay(ctx, data):
     ok = check_case(ctx, w)
     print("replay:", "property holds on this input" if ok else ctx.failures[-1])
     return 0 if ok else 1
+
+
+LEVEL_TEXT = ("Proof (Coq): for every documented type the validator tree built from the dc_validators combinators and the custom "
+              "validators accepts exactly the values of that type (C13_combinators_sound_complete, induction on the type "
+              "descriptor); every row of the field table REGENERATED from config/main.py carries the validator of its documented "
+              "type (C13_fields_match_types, finite table, bound = the fields present); stored values are fixed points of their "
+              "validator and independent of the spelling (list/tuple/set, order, repetition; list-of-names vs dict url_schemes); "
+              "for every validated global config, field and value, front matter myst:{f:v} yields exactly config.copy(f=v) "
+              "(dict options merged over the global value), an invalid value leaves the config unchanged with exactly one "
+              "topmatter warning, the global config is never written; a docutils option string and a Sphinx conf value give the "
+              "configuration of the constructor on the decoded value. Tie: regenerated table + differential correspondence of the "
+              "extracted model with MdParserConfig / copy / merge_file_level / the real docutils OptionParser / "
+              "sphinx_ext.create_myst_config on every field x values of every JSON type.")
+LEVEL_NOTE = ("Trusted: Coq kernel; the hand transcription of dc_validators.py, the check_* validators, __post_init__/copy, "
+              "merge_file_level and _attr_to_optparse_option in coq/Cfg/Cfg.v (tied by correspondence, not proved); the documented "
+              "types in coq/Cfg/CfgSpec.v (annotation -> type, plus the documented refinements of the custom-validated options); "
+              "gen/c13_config.py; PyYAML and importlib as oracles (their results are inputs of the model); docutils' "
+              "validate_boolean/validate_comma_separated_list transcribed as modelled externals; int() parsing and str.lower modelled "
+              "for ASCII. The effect on the rendered document (doctree under front matter == under the global setting) is checked on "
+              "generated documents by the search oracle only; commonmark_only is excluded there because the CommonMark-only parser "
+              "renders the front-matter block as text. Floats are abstracted to (integral part, has-fraction).")
